@@ -61,7 +61,7 @@ def _terminates(body):
     return bool(body) and isinstance(body[-1], (ast.Raise, ast.Return, ast.Continue, ast.Break))
 
 
-def conditions(ctx, fi, stmt):
+def conditions(ctx, fi, stmt, enclosing_only=False):
     """[(test, polarity, at_stmt)] holding at `stmt` (structural, sound for single-entry blocks)."""
     par = ctx.parents(fi)
     out = []
@@ -80,7 +80,7 @@ def conditions(ctx, fi, stmt):
             if isinstance(blk, list) and any(s is cur for s in blk):
                 # earlier refusals in this block
                 for s in blk:
-                    if s is cur:
+                    if s is cur or enclosing_only:
                         break
                     if isinstance(s, ast.If) and not s.orelse and _terminates(s.body):
                         out.append((s.test, False, s))
